@@ -1,7 +1,7 @@
 (* C07/Properties.v — property theorems only.  Model: C07/Model.v (the code after fix commits
    e89b171, 07b228c; with the known finding F-C07a, whose fix 311264d was reverted by 0819a3f). *)
 From Coq Require Import String Lia.
-From RM Require Import C06.Model C06.Proofs C06.Proofs5 C06.Driver C07.Model C07.Proofs C07.Proofs2 C07.Proofs3 C07.Proofs4 C07.Text C07.Proofs5 C07.Walker C07.Proofs6 C07.Proofs7 C07.Proofs11 C07.Proofs8 C07.Proofs9 C07.Proofs10.
+From RM Require Import C06.Model C06.Proofs C06.Proofs5 C06.Driver C07.Model C07.Proofs C07.Proofs2 C07.Proofs3 C07.Proofs4 C07.Text C07.Proofs5 C07.Walker C07.Proofs6 C07.Proofs7 C07.Proofs11 C07.Proofs8 C07.Proofs9 C07.Proofs10 C07.Proofs12.
 From RM Require C09.Grammar.
 From RM Require C08.Model C08.Proofs.
 Open Scope Z_scope.
@@ -300,6 +300,26 @@ Theorem c07_fpo_recovers_chain :
     fpo_walk (length acts) mem in_stack lookup below (mkX eip esp ebp) = fpo_chain (spec_gcps below) esp ebp acts.
 Proof. exact fpo_recovers_chain. Qed.
 Print Assumptions c07_fpo_recovers_chain.
+
+(* the normal-form hypothesis is an invariant of the parser state machine (every string the line parsers return is
+   rle_norm of a piece of the line), so from the LINES of the file: walk_frame_text = walk_frame on the parsed records *)
+Theorem c07_parsed_records_normal_form :
+  forall ls ps, parse_lines C09.Grammar.init_pst ls = Some ps ->
+    Forall wi_nf (C09.Grammar.p_win_fd ps) /\ Forall wi_nf (C09.Grammar.p_win_fpo ps).
+Proof. exact parsed_records_nf. Qed.
+Print Assumptions c07_parsed_records_normal_form.
+
+Theorem c07_text_route_agrees_parsed :
+  forall (S : Type) (ops : wops S) p E (ls : list C09.Grammar.rle) (ps : C09.Grammar.pst) (t : C09.Grammar.table) (s : S),
+    parse_lines C09.Grammar.init_pst ls = Some ps ->
+    C09.Grammar.finish ps = Ret t ->
+    C09.Grammar.t_cfi t = [] ->
+    walk_frame_text ops p E ls s =
+    (do r <- walk_frame ops p E (mkSym (map conv_win (rev (C09.Grammar.p_win_fd ps)))
+                                       (map conv_win (rev (C09.Grammar.p_win_fpo ps))) None) s;
+     Ret (Some r)).
+Proof. exact text_route_agrees_parsed. Qed.
+Print Assumptions c07_text_route_agrees_parsed.
 
 (* ---- non-vacuity ---- *)
 Example c07_nonvacuous_doc_example :
